@@ -49,11 +49,15 @@ def step (_ : Unit) (ws : List String) : Unit × String :=
       let f := if fh == "-" then ByteArray.empty else ByteArray.ofHex fh
       let x := if sh == "-" then ByteArray.empty else ByteArray.ofHex sh
       let d := if dh == "-" then ByteArray.empty else ByteArray.ofHex dh
-      match Frame.decompressAll f { content := d } x.size { magicless := fmt == "1" } with
+      -- the dictionary goes through the decoder-side loader model: raw content, or a formatted dictionary with its entropy tables
+      match Dict.loadD d with
+      | .error e => ((), s!"dict-err {e.cls}")
+      | .ok D =>
+      match Frame.decompressAll f D x.size { magicless := fmt == "1" } with
       | .error e => ((), s!"decode-err {e.cls}")
       | .ok (out, trs) =>
         if out != x then ((), s!"mismatch size={out.size}") else
-        let viol := trs.toList.flatMap (fun t => Conform.checkFrame t d.size none mb.toNat!)
+        let viol := trs.toList.flatMap (fun t => Conform.checkFrame t D.content.size none mb.toNat!)
         if !viol.isEmpty then ((), "viol " ++ "; ".intercalate viol) else
         let blocks := trs.foldl (fun n t => n + t.blocks.size) 0
         let seqs := trs.foldl (fun n t => t.blocks.foldl (fun m b => m + (b.tr.map (·.nbSeq)).getD 0) n) 0
